@@ -331,11 +331,45 @@ def run(ctx, res):
             res.evaluations += 1
         # ---- (4) .symtab / ___exit
         syms = [e for e in effs if e[0] == "iter-next" and isinstance(e[3], Agg) and len(e[3].fields) == 2 and isinstance(e[3].fields[1], Agg) and len(e[3].fields[1].fields) == len(fields_of(facts, SYM))]
+        # the symbol loop may also run over the raw symbol records and compare the name bytes in the string table in place
+        raw_syms = [e for e in effs if e[0] == "iter-next" and isinstance(e[3], Agg) and len(e[3].fields) == len(fields_of(facts, SYM)) and len(fields_of(facts, SYM)) != 2
+                    and all(isinstance(x, Int) for x in e[3].fields)]
+        _raw_is_exit = None
+        if not syms and raw_syms and isinstance(hdr, Agg):
+            symt = raw_syms[-1][3]
+            tests = [e for e in effs[effs.index(raw_syms[-1]):] if e[0] == "bytes-test"]
+            if len(tests) == 1:
+                _, kind_, sd_, needle_, var_ = tests[0]
+                # (a) WHAT is compared: the bytes of the string table selected by sh_link, starting at st_name
+                vix_ = [e for e in effs if e[0] == "vec-index" and isinstance(e[3], Agg) and len(e[3].fields) == len(fields_of(facts, SH))]
+                link_ = bv.zext(get(facts, SH, hdr, "link").bits, 64)
+                okw = False
+                for e in vix_:
+                    if differs(e[2], link_, care) == 0 and isinstance(sd_, tuple) and sd_[1] is not None:
+                        want = bv.add(bv.zext(get(facts, SH, e[3], "offset").bits, 64), bv.zext(get(facts, SYM, symt, "name_idx").bits, 64))
+                        if differs(bv.zext(tuple(sd_[1]), 64), want, care) == 0:
+                            okw = True
+                res.ob(okw)
+                if not okw:
+                    res.finding("exit|string-table", "the bytes compared with ___exit are not those at st_name in the string table selected by sh_link", witness(care))
+                # (b) HOW: the name must be ___exit exactly, i.e. the comparison includes the terminating NUL
+                exact = (kind_ == "prefix" and needle_ == b"___exit\0")
+                res.ob(exact)
+                if not exact:
+                    if needle_ == b"___exit" and kind_ == "prefix":
+                        res.finding("exit|name-prefix", "the symbol name is matched as a PREFIX (starts_with without the terminating NUL): ___exit_hook, ___exitcode ... also set the exit address", witness(care))
+                    else:
+                        res.finding("exit|name-match", "the symbol name is compared with %r (%s), not with ___exit and its terminator" % (needle_, kind_), witness(care))
+                syms = [(raw_syms[-1][0], raw_syms[-1][1], raw_syms[-1][2], Agg([strmodel.S(("symname", st.count("sn"))), symt]))]
+                effs[effs.index(raw_syms[-1])] = syms[-1]
+                _raw_is_exit = var_
+            elif tests:
+                res.errors.append("symbol loop: the name of a symbol is tested %d times: not decidable" % len(tests))
         if syms and isinstance(hdr, Agg):
             sv = syms[-1][3]
             sname = sv.fields[0].data
             symt = sv.fields[1]
-            is_exit = strmodel.eq_var(sname, "___exit")
+            is_exit = strmodel.eq_var(sname, "___exit") if _raw_is_exit is None else _raw_is_exit
             cpuv = st.mem[L.cpu_root]
             ex = cpuv.fields[L.I.fi["exit_addr"]]
             exit0 = bv.seq_bv("exit0", 32)
@@ -371,7 +405,7 @@ def run(ctx, res):
                 link = bv.zext(get(facts, SH, hdr, "link").bits, 64)
                 okk = any(differs(e[2], link, care) == 0 for e in vix)
                 res.ob(okk)
-                if not okk:
+                if not okk and _raw_is_exit is None:
                     res.finding("exit|string-table", "symbol names are not resolved through the string table selected by sh_link", witness(care))
     # elements dropped by an iterator filter must not be ones the property needs
     for pc_, elem, h_ in loadermod.filtered_out(outs):
